@@ -41,8 +41,22 @@ class LoopSpec:
         self.on_exit = on_exit
 
 
+def _is_ref(n, name):
+    """`name` is a variable, or a dotted attribute path of one (`self.routines`): is the node a reference to exactly that?"""
+    if isinstance(n, ast.Name):
+        return n.id == name
+    return isinstance(n, ast.Attribute) and "." in name and ast.unparse(n) == name
+
+
 def _mentions(node, name):
-    return any(isinstance(n, ast.Name) and n.id == name for n in ast.walk(node))
+    if any(_is_ref(n, name) for n in ast.walk(node)):
+        return True
+    if "." in name:
+        # the object itself escaping (`f(self)`) could read the attribute: only `self.<something>` uses are harmless
+        base = name.split(".")[0]
+        under_attr = {id(n.value) for n in ast.walk(node) if isinstance(n, ast.Attribute)}
+        return any(isinstance(n, ast.Name) and n.id == base and id(n) not in under_attr for n in ast.walk(node))
+    return False
 
 
 def _accumulation(loop: ast.For, acc: str):
@@ -68,6 +82,17 @@ def _accumulation(loop: ast.For, acc: str):
             and body[1].targets[0].slice.id == body[0].targets[0].id and not _mentions(body[1].value, body[0].targets[0].id):
         key_temp = body[0].value
         body = body[1:]
+    # `k2 = f(k); v2 = g(v); acc[k2] = v2`: key temp first, then value temp - the order a dict display evaluates them in
+    if key_temp is None and len(body) == 3 and all(isinstance(b, ast.Assign) and len(b.targets) == 1 for b in body) \
+            and isinstance(body[0].targets[0], ast.Name) and isinstance(body[1].targets[0], ast.Name) \
+            and isinstance(body[2].targets[0], ast.Subscript) and _is_ref(body[2].targets[0].value, acc) \
+            and isinstance(body[2].targets[0].slice, ast.Name) and body[2].targets[0].slice.id == body[0].targets[0].id \
+            and isinstance(body[2].value, ast.Name) and body[2].value.id == body[1].targets[0].id \
+            and body[0].targets[0].id != body[1].targets[0].id \
+            and not _mentions(body[0].value, acc) and not _mentions(body[1].value, acc) \
+            and not _mentions(body[1].value, body[0].targets[0].id) and not _mentions(body[0].value, body[1].targets[0].id):
+        gen = ast.comprehension(target=loop.target, iter=loop.iter, ifs=ifs, is_async=0)
+        return [gen], ("dict", body[0].value, body[1].value)
     if len(body) != 1:
         return None
     st = body[0]
@@ -76,22 +101,22 @@ def _accumulation(loop: ast.For, acc: str):
         st = st.body[0]
     gen = ast.comprehension(target=loop.target, iter=loop.iter, ifs=ifs, is_async=0)
     if key_temp is not None:
-        if isinstance(st, ast.Assign) and isinstance(st.targets[0], ast.Subscript) and isinstance(st.targets[0].value, ast.Name) \
-                and st.targets[0].value.id == acc and not _mentions(st.value, acc):
+        if isinstance(st, ast.Assign) and isinstance(st.targets[0], ast.Subscript) and _is_ref(st.targets[0].value, acc) \
+                and not _mentions(st.value, acc):
             return [gen], ("dict", key_temp, st.value)
         return None
     if isinstance(st, ast.For):
         inner = _accumulation(st, acc)
         return None if inner is None else ([gen] + inner[0], inner[1])
     if isinstance(st, ast.Assign) and len(st.targets) == 1 and isinstance(st.targets[0], ast.Subscript) \
-            and isinstance(st.targets[0].value, ast.Name) and st.targets[0].value.id == acc:
+            and _is_ref(st.targets[0].value, acc):
         key = st.targets[0].slice
         # `acc[k] = v` evaluates v before k, a dict display k before v: only a side-effect free key keeps the order immaterial
         if not isinstance(key, (ast.Name, ast.Constant)) or _mentions(key, acc) or _mentions(st.value, acc):
             return None
         return [gen], ("dict", key, st.value)
     if isinstance(st, ast.Expr) and isinstance(st.value, ast.Call) and isinstance(st.value.func, ast.Attribute) \
-            and st.value.func.attr == "append" and isinstance(st.value.func.value, ast.Name) and st.value.func.value.id == acc \
+            and st.value.func.attr == "append" and _is_ref(st.value.func.value, acc) \
             and len(st.value.args) == 1 and not st.value.keywords and not _mentions(st.value.args[0], acc):
         return [gen], ("list", st.value.args[0])
     return None
@@ -124,9 +149,8 @@ def _search_loop(loop: ast.For):
 
 
 def _search_assign_loop(loop: ast.For):
-    """(filters, name, expression) when the loop is `[if g: continue]* if c: name = e; break`: the first match is kept in `name`."""
-    if loop.orelse:
-        return None
+    """(filters, name, expression) when the loop is `[if g: continue]* if c: name = e; break`: the first match is kept in `name`
+    (an `else:` clause of the loop runs when nothing matched - the caller executes it)."""
     ifs, body = [], list(loop.body)
     while len(body) > 1:
         g = body[0]
@@ -146,10 +170,17 @@ def _search_assign_loop(loop: ast.For):
 
 def _empty_container(stmt):
     """('dict' | 'list', name) when stmt is `name = {}` / `name = []` / `name = dict()` / `name = list()` (also annotated)."""
-    if isinstance(stmt, ast.Assign) and len(stmt.targets) == 1 and isinstance(stmt.targets[0], ast.Name):
-        name, v = stmt.targets[0].id, stmt.value
-    elif isinstance(stmt, ast.AnnAssign) and isinstance(stmt.target, ast.Name) and stmt.value is not None:
-        name, v = stmt.target.id, stmt.value
+    def _tname(t):
+        # a variable, or an attribute of a plain variable (`self.routines`)
+        if isinstance(t, ast.Name):
+            return t.id
+        if isinstance(t, ast.Attribute) and isinstance(t.value, ast.Name):
+            return ast.unparse(t)
+        return None
+    if isinstance(stmt, ast.Assign) and len(stmt.targets) == 1 and _tname(stmt.targets[0]):
+        name, v = _tname(stmt.targets[0]), stmt.value
+    elif isinstance(stmt, ast.AnnAssign) and _tname(stmt.target) and stmt.value is not None:
+        name, v = _tname(stmt.target), stmt.value
     else:
         return None
     if isinstance(v, ast.Dict) and not v.keys:
@@ -176,7 +207,9 @@ class StmtMixin:
                         gens, what = acc
                         comp = (ast.DictComp(key=what[1], value=what[2], generators=gens) if what[0] == "dict"
                                 else ast.ListComp(elt=what[1], generators=gens))
-                        new = ast.Assign(targets=[ast.Name(id=ec[1], ctx=ast.Store())], value=comp)
+                        tgt = ast.parse(ec[1], mode="eval").body
+                        tgt.ctx = ast.Store()
+                        new = ast.Assign(targets=[tgt], value=comp)
                         ast.copy_location(new, stmts[i + 1])
                         ast.fix_missing_locations(new)
                         self.exec(new, env, path)
@@ -476,6 +509,8 @@ class StmtMixin:
                     r = m_next(self, path, [fg, _FELL_THROUGH], {})
                     if r is not _FELL_THROUGH:
                         env.set(sa[1], r)
+                    else:
+                        self.exec_block(node.orelse, env, path)     # no `break` happened
                     return
         it = self.eval(node.iter, env, path)
         src = self.iter_seq(it, path, for_loop=True)
